@@ -136,5 +136,14 @@ SILENT = [
     Silent("bare-except", FMT, "    except BaseException:\n        # Yikes, something really nasty happened.", "    except:\n        # Yikes, something really nasty happened."),
     Silent("concat-instead-of-join", FMT, "        system = \"\".join([\"[\", _formatSystem(event), \"]\", \" \"])", "        system = \"[\" + _formatSystem(event) + \"] \""),
     Silent("traceback-note-uses-safe-repr", FMT, "        traceback = \"(UNABLE TO OBTAIN TRACEBACK FROM EVENT):\" + str(e)", "        traceback = \"(UNABLE TO OBTAIN TRACEBACK FROM EVENT):\" + str(e) + \" in \" + safe_repr(failure)"),
+    Silent("traceback-returns-from-try-with-renamed-exception", FMT, "    try:\n        traceback = failure.getTraceback()\n    except BaseException as e:\n        traceback = \"(UNABLE TO OBTAIN TRACEBACK FROM EVENT):\" + str(e)\n    return traceback\n",
+           "    try:\n        return failure.getTraceback()\n    except BaseException as problem:\n        why = str(problem)\n        return \"(UNABLE TO OBTAIN TRACEBACK FROM EVENT):\" + why\n"),
+    Silent("level-name-as-conditional-expression", FMT, "        if level is None:\n            levelName = \"-\"\n        else:\n            levelName = level.name\n",
+           "        levelName = \"-\" if level is None else level.name\n"),
+    Silent("legacy-header-local-and-guard-clause", LOG, "            if why:\n                why = reflect.safe_str(why)\n            else:\n                why = \"Unhandled Error\"\n",
+           "            heading = reflect.safe_str(why) if why else \"Unhandled Error\"\n",
+           more=[(LOG, "            text = why + \"\\n\" + traceback\n", "            text = heading + \"\\n\" + traceback\n")]),
+    Silent("time-formatting-helper-extracted", FMT, "        tz = FixedOffsetTimeZone.fromLocalTimeStamp(when)\n        datetime = DateTime.fromtimestamp(when, tz)\n        return str(datetime.strftime(timeFormat))\n",
+           "        return _strftimeLocal(when, timeFormat)\n\n\ndef _strftimeLocal(stamp, pattern):\n    zone = FixedOffsetTimeZone.fromLocalTimeStamp(stamp)\n    return str(DateTime.fromtimestamp(stamp, zone).strftime(pattern))\n"),
     Silent("legacy-traceback-local", LOG, "            text = why + \"\\n\" + traceback\n", "            text = why + \"\\n\" + traceback\n            del why\n"),
 ]
